@@ -20,8 +20,9 @@ extern "C" size_t __sanitizer_get_allocated_size(const volatile void* p);
 extern "C" size_t __sanitizer_get_current_allocated_bytes();
 // freed memory is overwritten with a known byte (the ASan counterpart of the runner's M_PERTURB fill): a value read from an object that
 // was already destroyed then shows up as garbage in the result instead of as the stale - and plausible - old value.  GMP is not
-// instrumented, so ASan itself does not see such reads.
-extern "C" const char* __asan_default_options() { return "max_free_fill_size=1048576:free_fill_byte=85"; }
+// instrumented, so ASan itself does not see such reads.  suppress_equal_pcs=0: in recover mode ASan otherwise reports a faulty
+// instruction only once per process, which would hide every occurrence after the first (and the mirror's run of the same library code).
+extern "C" const char* __asan_default_options() { return "max_free_fill_size=1048576:free_fill_byte=85:suppress_equal_pcs=0"; }
 static size_t block_size(const void* p) { return __sanitizer_get_allocated_size(p); }
 static size_t heap_bytes() { return __sanitizer_get_current_allocated_bytes(); }
 #else
@@ -894,6 +895,7 @@ static void apply(const Op& op, void*& h, std::unique_ptr<SoPlex>& mp, const St&
       int dim = v == 0 ? s.n : v == 1 ? s.n + 2 : s.n - 1;
       Blk<double> out(dim, -777.25); g_blocks++;
       std::vector<double> exp;
+      exp.reserve(dim + s.n + 4);      // no allocation inside the measured mirror call
       run_pair(st, [&]
       {
          if(op.fn == GET_LOWER_REAL) SoPlex_getLowerReal(h, out.p, dim);
@@ -929,6 +931,7 @@ static void apply(const Op& op, void*& h, std::unique_ptr<SoPlex>& mp, const St&
       int nnz = row.size();
       Blk<int> cnt(1, -777); Blk<long> idx(nnz, -777L); Blk<double> co(nnz, -777.25); g_blocks += 3;
       DSVector row2;
+      st.heapcmp = false;               // the mirror's result vector stays allocated
       run_pair(st, [&] { SoPlex_getRowVectorReal(h, i, cnt.p, idx.p, co.p); }, [&] { M.getRowVectorReal(i, row2); });
       if(!st.c.sig)
       {
@@ -944,6 +947,7 @@ static void apply(const Op& op, void*& h, std::unique_ptr<SoPlex>& mp, const St&
       int nnz = M.rowVectorRational(i).size();
       Blk<int> cnt(1, -777); Blk<long> idx(nnz, -777L), nu(nnz, -777L), de(nnz, -777L); g_blocks += 4;
       LPRowRational lr;
+      st.heapcmp = false;
       P << i << ") row has " << nnz << " nonzeros";
       run_pair(st, [&] { SoPlex_getRowVectorRational(h, i, cnt.p, idx.p, nu.p, de.p); }, [&] { M.getRowRational(i, lr); });
       if(!st.c.sig)
@@ -975,6 +979,7 @@ static void apply(const Op& op, void*& h, std::unique_ptr<SoPlex>& mp, const St&
       int i = sel(v, s.mr);
       Blk<long> ln(1, -777L), ld(1, -777L), un(1, -777L), ud(1, -777L); g_blocks += 4;
       Rational el, eu;
+      st.heapcmp = false;
       run_pair(st, [&] { SoPlex_getRowBoundsRational(h, i, ln.p, ld.p, un.p, ud.p); }, [&] { el = M.lhsRational(i); eu = M.rhsRational(i); });
       if(!st.c.sig)
       {
@@ -999,21 +1004,26 @@ static void apply(const Op& op, void*& h, std::unique_ptr<SoPlex>& mp, const St&
 static const char* INITNAME[] = {"fresh", "loaded", "solved", "rational", "rational-solved"};
 static const int NINIT = 5;
 
-static void make_init(int init, void*& h, std::unique_ptr<SoPlex>& mp)
+// cside = false builds only the mirror (used by the parent process to size the first-level alphabet: no C-interface code runs before the
+// workers are forked, because ASan reports a faulty instruction only once per process and forked workers inherit that memory)
+static void make_init(int init, void*& h, std::unique_ptr<SoPlex>& mp, bool cside = true)
 {
-   h = SoPlex_create();
+   h = cside ? SoPlex_create() : nullptr;
    mp.reset(new SoPlex());
-   silence((SoPlex*)h);
+   if(cside) silence((SoPlex*)h);
    silence(mp.get());
    SoPlex& M = *mp;
    if(init == 0) return;
    if(init == 1 || init == 2)
    {
-      Blk<double> z(0), r0(std::vector<double>{1, 1}), r1(std::vector<double>{1, -1});
-      SoPlex_addColReal(h, z.p, 0, 0, 1.0, 0.0, 4.0);
-      SoPlex_addColReal(h, z.p, 0, 0, 2.0, 0.0, PINF);
-      SoPlex_addRowReal(h, r0.p, 2, 2, -PINF, 4.0);
-      SoPlex_addRowReal(h, r1.p, 2, 2, -1.0, 2.0);
+      if(cside)
+      {
+         Blk<double> z(0), r0(std::vector<double>{1, 1}), r1(std::vector<double>{1, -1});
+         SoPlex_addColReal(h, z.p, 0, 0, 1.0, 0.0, 4.0);
+         SoPlex_addColReal(h, z.p, 0, 0, 2.0, 0.0, PINF);
+         SoPlex_addRowReal(h, r0.p, 2, 2, -PINF, 4.0);
+         SoPlex_addRowReal(h, r1.p, 2, 2, -1.0, 2.0);
+      }
       DSVector e;
       M.addColReal(LPCol(1.0, e, 4.0, 0.0));
       M.addColReal(LPCol(2.0, e, PINF, 0.0));
@@ -1024,18 +1034,21 @@ static void make_init(int init, void*& h, std::unique_ptr<SoPlex>& mp)
    }
    else
    {
-      SoPlex_setRational(h);
+      if(cside)
+      {
+         SoPlex_setRational(h);
+         Blk<long> z(0), n0(std::vector<long>{1, 1}), d0(std::vector<long>{3, 1}), n1(std::vector<long>{1, -1}), d1(std::vector<long>{1, 1});
+         SoPlex_addColRational(h, z.p, z.p, 0, 0, 1, 1, 0, 1, 4, 1);
+         SoPlex_addColRational(h, z.p, z.p, 0, 0, 2, 3, 0, 1, 1000000, 1);
+         SoPlex_addRowRational(h, n0.p, d0.p, 2, 2, -1000000, 1, 4, 3);
+         SoPlex_addRowRational(h, n1.p, d1.p, 2, 2, -1, 2, 2, 1);
+      }
       M.setIntParam(SoPlex::READMODE, SoPlex::READMODE_RATIONAL);
       M.setIntParam(SoPlex::SOLVEMODE, SoPlex::SOLVEMODE_RATIONAL);
       M.setIntParam(SoPlex::CHECKMODE, SoPlex::CHECKMODE_RATIONAL);
       M.setIntParam(SoPlex::SYNCMODE, SoPlex::SYNCMODE_AUTO);
       M.setRealParam(SoPlex::FEASTOL, 0.0);
       M.setRealParam(SoPlex::OPTTOL, 0.0);
-      Blk<long> z(0), n0(std::vector<long>{1, 1}), d0(std::vector<long>{3, 1}), n1(std::vector<long>{1, -1}), d1(std::vector<long>{1, 1});
-      SoPlex_addColRational(h, z.p, z.p, 0, 0, 1, 1, 0, 1, 4, 1);
-      SoPlex_addColRational(h, z.p, z.p, 0, 0, 2, 3, 0, 1, 1000000, 1);
-      SoPlex_addRowRational(h, n0.p, d0.p, 2, 2, -1000000, 1, 4, 3);
-      SoPlex_addRowRational(h, n1.p, d1.p, 2, 2, -1, 2, 2, 1);
       DSVectorRational e;
       M.addColRational(LPColRational(mkq(1, 1), e, mkq(4, 1), mkq(0, 1)));
       M.addColRational(LPColRational(mkq(2, 3), e, mkq(1000000, 1), mkq(0, 1)));
@@ -1046,7 +1059,7 @@ static void make_init(int init, void*& h, std::unique_ptr<SoPlex>& mp)
    }
    if(init == 2 || init == 4)
    {
-      SoPlex_optimize(h);
+      if(cside) SoPlex_optimize(h);
       M.optimize();
    }
 }
@@ -1097,6 +1110,10 @@ static SeqResult run_seq(const Seq& q, Ctx& c, uint64_t beforeHash = 0)
    std::unique_ptr<SoPlex> mp;
    std::string trace = std::string("from '") + INITNAME[q.init] + "': ";
    make_init(q.init, h, mp);
+   {
+      std::string ar = take_asan_report();
+      if(!ar.empty()) c.violation(ar + "@initial-state[" + INITNAME[q.init] + "]", q.str(), "AddressSanitizer report while the initial state was built through the C interface");
+   }
    bool dead = false;      // crashed: the objects are abandoned
    bool diverged = false;
    if(q.ops.empty())
@@ -1132,8 +1149,18 @@ static SeqResult run_seq(const Seq& q, Ctx& c, uint64_t beforeHash = 0)
          c.violation(sig_of("crash:sig" + std::to_string(st.c.sig), op), q.str(), "the C function died on signal " + std::to_string(st.c.sig) + ", the mirrored C++ call returned | " + trace);
       else if(st.m.sig)
          c.violation(sig_of("crash-mirror:sig" + std::to_string(st.m.sig), op), q.str(), "the mirrored C++ call died, the C function returned | " + trace);
-      if(!st.asanC.empty()) c.violation(st.asanC + "@" + FNAME[op.fn] + "[" + vlabel(op) + "]", q.str(), "AddressSanitizer report inside the C function | " + trace);
-      if(!st.asanM.empty()) c.violation("mirror-" + st.asanM + "@" + FNAME[op.fn] + "[" + vlabel(op) + "]", q.str(), "AddressSanitizer report inside the mirrored C++ call | " + trace);
+      if(!st.asanC.empty() && st.asanC == st.asanM)
+      {
+         // the same report from the C call and from the equivalent C++ call: a defect of the C++ library that both reach alike
+         c.count("asan_report_in_C_call_and_identically_in_Cxx_call(not judged)." + st.asanC + "@" + FNAME[op.fn] + "[" + vlabel(op) + "]");
+         dead = true;
+      }
+      else
+      {
+         if(!st.asanC.empty()) c.violation(st.asanC + "@" + FNAME[op.fn] + "[" + vlabel(op) + "]", q.str(), "AddressSanitizer report inside the C function (mirror: " + (st.asanM.empty() ? std::string("none") : st.asanM) + ") | " + trace);
+         if(!st.asanM.empty()) c.violation("mirror-" + st.asanM + "@" + FNAME[op.fn] + "[" + vlabel(op) + "]", q.str(), "AddressSanitizer report inside the mirrored C++ call (C: " + (st.asanC.empty() ? std::string("none") : st.asanC) + ") | " + trace);
+         if(!st.asanC.empty() || !st.asanM.empty()) diverged = true;
+      }
       if(dead) break;
       if(st.c.threw != st.m.threw)
       {
@@ -1142,7 +1169,10 @@ static SeqResult run_seq(const Seq& q, Ctx& c, uint64_t beforeHash = 0)
       }
       else if(st.c.threw) c.count("exceptions_on_both_sides");
       if(!st.rule.empty()) { c.violation(sig_of(st.rule, op), q.str(), st.diff + " | " + trace); diverged = true; }
-      if(st.heapcmp && st.heapC != st.heapM) c.count(std::string("note.heap_retained_differs.") + FNAME[op.fn]);
+      // observation, not a verdict: bytes that stay allocated after the C call vs after the equivalent C++ call (exact under ASan)
+      if(st.heapcmp && st.heapC != st.heapM) c.count(std::string("note.heap_retained_by_C_call_differs_from_Cxx_call.") + FNAME[op.fn]);
+      if(s.rat && (op.fn == ADD_COL_RAT || op.fn == ADD_ROW_RAT || op.fn == CHG_OBJ_RAT || op.fn == CHG_LHS_RAT || op.fn == CHG_RHS_RAT || op.fn == CHG_VAR_BOUNDS_RAT))
+         c.count("rational_modifier_calls_on_an_existing_rational_lp");
       std::string a, b, ra, rb;
       bool oka = safe_digest((SoPlex*)h, a, ra), okb = safe_digest(mp.get(), b, rb);
       if(!oka || !okb || !ra.empty() || !rb.empty())
@@ -1218,7 +1248,7 @@ int main(int argc, char** argv)
    }
    bool thorough = args.tier == "thorough";
    int depth = atoi(args.get("depth", thorough ? "3" : "2").c_str());
-   bool small3 = args.get("l3", "full") == "small";
+   bool small3 = args.get("l3", "small") == "small";
    g_allow_scaled_grow = args.get("allow-scaled-grow", "0") == "1";
    Report rep(args, "model_checking", thorough ? 3300 : 420);
 
@@ -1227,9 +1257,8 @@ int main(int argc, char** argv)
    for(int in = 0; in < NINIT; ++in)
    {
       void* h; std::unique_ptr<SoPlex> mp;
-      make_init(in, h, mp);
+      make_init(in, h, mp, false);
       St s = state_of(*mp);
-      SoPlex_free(h);
       for(auto& op : alphabet(s)) firsts.push_back({in, op});
    }
    RunOpts o = rep.opts();
@@ -1317,7 +1346,8 @@ int main(int argc, char** argv)
    for(int f = 0; f < NFN; ++f) if(rep.all.counters.count(std::string("fn.") + FNAME[f])) ++reached;
    rep.evaluations = rep.all.counters["sequences"] + rep.all.counters["init_states_checked"];
    rep.rule = "a case is a call sequence (initial state, call_1..call_k, k<=depth) over the instantiated alphabet of the SoPlex_* functions; every sequence is "
-              "executed on a fresh handle and a fresh C++ mirror by replaying its prefix, and judged after its last call (return values, arrays, strings, "
+              "executed on a fresh handle and a fresh C++ mirror by replaying its prefix (levels 1 and 2 use the full alphabet, level 3 one variant per function "
+              "plus the array-shape variants), and judged after its last call (return values, arrays, strings, "
               "accessor digest of the object behind the handle vs the mirror, ASan, crash); distinct_nontrivial counts the sequences whose last call changed the "
               "accessor digest or returned at least one value that was compared; states = distinct accessor digests of the mirror";
    rep.assumptions = {"the mirror is a C++ SoPlex object driven by the documented equivalent of every C call, written in the harness (own dense->sparse conversion, rationals built with GMP mpq_class from the long pairs)",
